@@ -328,12 +328,22 @@ package gorm
 //@   requires held == 0
 //@   ensures mutex-free-on-return: held == 0
 
-//@ func (*PreparedStmtDB).Reset (*PreparedStmtDB).Close
+//@ func (*PreparedStmtDB).Close
 //@   tags C14
 //@   requires held == 0
 //@   loop 1 invariant every-entry-gets-a-closer: spawned - old(spawned) == ranged - old(ranged) && held == 2
 //@   ensures mutex-free-on-return: held == 0
 //@   ensures every-entry-gets-a-closer: spawned - old(spawned) == ranged - old(ranged)
+
+//@ func (*PreparedStmtDB).Reset
+//@   tags C14
+//@   requires held == 0
+//@   let m0 = sdb.Stmts
+//@   loop 1 invariant every-entry-gets-a-closer: spawned - old(spawned) == ranged - old(ranged) && held == 2
+//@   loop 1 invariant closed-entries-leave-the-shared-map: sdb.Stmts == m0 && forallkey(k, m0, visited(k) ==> !has(m0, k))
+//@   ensures mutex-free-on-return: held == 0
+//@   ensures every-entry-gets-a-closer: spawned - old(spawned) == ranged - old(ranged)
+//@   ensures shared-map-holds-no-closed-statement: forallkey(k, m0, !has(m0, k))
 
 //@ site closer-waits-for-preparation
 //@   match call database/sql.(*Stmt).Close
